@@ -40,7 +40,9 @@ CLAIMS = {
             'along every exact unforced (or DC-driven) trajectory over the reals (C11d, Coquelicot; classical-reals axioms); that scipy.signal.lsim '
             'follows such a trajectory is exercised, not modelled'),
     'C12': ('partial: KCL, element laws, i_C = C dv/dt, v_L = L di/dt for EVERY state/input pair (hence every sample whatever the integrator), rest, '
-            'input order; the integrator lsim is a Section variable (compared against an independent integrator by the harness)'),
+            'input order; along every exact trajectory x\' = Ax + Bu over the reals the differential laws with true derivatives, rest, and the DC '
+            'equilibrium = DC analysis (C12d, Coquelicot); that the integrator lsim follows such a trajectory is a Section variable (compared '
+            'against an independent integrator by the harness)'),
     'C13': ('partial: executable model of the wire closure, representatives, labelling (auto-numbering with the skip loop), ground and the per-class '
             'terminal swap, with Python\'s set iteration orders as PARAMETERS: closure = wire connectivity, labels injective on classes, order '
             'independence up to a renaming of unlabelled nodes, invariance under any injective point map (rotation, translation, rescaling), wire '
@@ -57,12 +59,14 @@ CLAIMS = {
     'C16': ('full for solutions-to-solutions (open removal, contraction by induction over the loop, re-grounding), names-only, exemption list, '
             'well-posedness preserved under wf; the no-wf variant is stated only; all nine operations regenerated and proved equal to the model (C16c)'),
     'C17': ('full on the model: loaders are interpreters of the regenerated loader/constructor tables; every documented kind loads to exactly its '
-            'element for all field values; notations agree; nested round trip for all trees (nested induction); no mutation (state-passing style)'),
+            'element for all field values; notations agree; nested round trip for all trees (nested induction); no mutation (state-passing style); the '
+            'function bodies of loaders.py / dump_load.py / Circuit/dump_load.py regenerated in state-passing style and proved equal to the model (C17c)'),
     'C18': ('partial: exact integer/rational model of the whole rendering pipeline; text parses back exactly; half-unit accuracy outside the carry '
             'region (REFUTED inside: known finding); saturation; complex signs; binary64 arithmetic inside the formatter is validated on the '
             'property\'s grid (near-tie rule), not proved; every rendering method of Utils.py regenerated and proved equal to the model (C18c)'),
     'C19': ('full on the model: every guarded parameter of every constructor (read from the regenerated table) rejects negatives and accepts 0; '
-            'duplicates / grounds / floating reference at every position and multiplicity; typed loader errors; unknown ids; stored unaltered'),
+            'duplicates / grounds / floating reference at every position and multiplicity; typed loader errors; unknown ids; stored unaltered; exception '
+            'classes and the order of the checks over the regenerated loaders (C19c)'),
     'C20': ('partial: history theorem (Frame for every performed operation => every result equals the isolated result) over a state-passing model of '
             'loaders, solver and transformers; Python object identity, default-argument objects and module state are observed by the harness '
             '(fresh-process comparison, deep fingerprints), not modelled'),
